@@ -12,7 +12,7 @@ use crate::shapes::Sh;
 use crate::solver::{Answer, Proc, Which};
 use num_bigint::BigUint;
 use patronus::expr::{Context, ExprRef, TypeCheck};
-use patronus::smt::{SmtCommand, parse_command, parse_expr, serialize_cmd};
+use patronus::smt::{SmtCommand, parse_command, parse_expr, read_command, serialize_cmd};
 use rayon::prelude::*;
 use rustc_hash::FxHashMap;
 use serde_json::json;
@@ -20,6 +20,8 @@ use std::collections::BTreeMap;
 
 pub const SITE_EXPR: &str = "smt::parse_expr (round trip of smt::serialize_cmd text)";
 pub const SITE_CMD: &str = "smt::parse_command (round trip of smt::serialize_cmd text)";
+pub const SITE_STREAM: &str = "smt::read_command (script streams written by smt::serialize_cmd, one symbol table)";
+pub const SITE_READER: &str = "smt::parse_expr (standard terms in the spellings found in smt/serialize.rs; the solver's own reading of the text is the reference)";
 pub const SITE_VAL: &str = "smt::parse_expr on solver model values / SmtLibSolverCtx::get_value";
 
 fn real_cmd(ctx: &Context, cmd: &SmtCommand) -> String {
@@ -415,6 +417,309 @@ fn round_trip_chunk(rep: &mut Report, chunk: &[Sh], base: usize) {
 }
 
 // ---------------------------------------------------------------------------------------------
+// command streams: a whole script (declarations, definitions, push/pop, re-declaration of a name with
+// another sort in a later scope) is written by the real writer and read back command by command with
+// the real `read_command`, which carries the table of declared symbols from one command to the next.
+
+fn stream_part(rep: &mut Report, instances: &[Sh], tier: Tier, seed: u64, only: Option<(usize, usize)>) {
+    let with_syms: Vec<usize> = instances
+        .iter()
+        .enumerate()
+        .filter(|(_, s)| {
+            let mut v = vec![];
+            s.symbols(&mut v);
+            !v.is_empty()
+        })
+        .map(|(i, _)| i)
+        .collect();
+    if with_syms.len() < 2 {
+        return;
+    }
+    let n = tier.pick(1500usize, 20000usize);
+    let mut pairs: Vec<(usize, usize)> = vec![];
+    match only {
+        Some(p) => pairs.push(p),
+        None => {
+            let mut rng = crate::rng::Rng::new(seed, "C14-stream", 0);
+            let mut tries = 0;
+            while pairs.len() < n && tries < n * 20 {
+                tries += 1;
+                let a = with_syms[rng.below(with_syms.len())];
+                let b = with_syms[rng.below(with_syms.len())];
+                let (mut sa, mut sb) = (vec![], vec![]);
+                instances[a].symbols(&mut sa);
+                instances[b].symbols(&mut sb);
+                if sa[0].1 != sb[0].1 {
+                    pairs.push((a, b));
+                }
+            }
+        }
+    }
+    let chunks: Vec<&[(usize, usize)]> = pairs.chunks(100).collect();
+    let parts: Vec<Report> = chunks
+        .par_iter()
+        .map(|chunk| {
+            let mut r = Report::new("C14", tier, seed, "translation_validation");
+            let mut hard = miter::Portfolio::new(10_000);
+            let mut ctx = Context::default();
+            for (k, (ia, ib)) in chunk.iter().enumerate() {
+                if k % 25 == 24 {
+                    ctx = Context::default();
+                }
+                let (sa, sb) = (&instances[*ia], &instances[*ib]);
+                let (mut ya, mut yb) = (vec![], vec![]);
+                sa.symbols(&mut ya);
+                sb.symbols(&mut yb);
+                let (fa, fb) = (ya[0], yb[0]);
+                let nm_a = move |i: u8, t: Ty| if (i, t) == fa { "shared!".to_string() } else { crate::shapes::sym_name(i, t) };
+                let nm_b = move |i: u8, t: Ty| if (i, t) == fb { "shared!".to_string() } else { crate::shapes::sym_name(i, t) };
+                let ea = sa.build_with(&mut ctx, &nm_a);
+                let eb = sb.build_with(&mut ctx, &nm_b);
+                let mut cmds: Vec<SmtCommand> = vec![SmtCommand::SetLogic(patronus::smt::Logic::All), SmtCommand::Push(1)];
+                let decls = |ctx: &mut Context, syms: &[(u8, Ty)], nm: &dyn Fn(u8, Ty) -> String, out: &mut Vec<SmtCommand>| {
+                    for (i, t) in syms.iter() {
+                        let s = Sh::Sym(*i, *t).build_with(ctx, nm);
+                        out.push(SmtCommand::DeclareConst(s));
+                    }
+                };
+                decls(&mut ctx, &ya, &nm_a, &mut cmds);
+                let out_a = {
+                    let n = ctx.string("out!a".into());
+                    let t = ea.get_type(&ctx);
+                    ctx.symbol(n, t)
+                };
+                cmds.push(SmtCommand::DefineConst(out_a, ea));
+                if ea.get_type(&ctx) == patronus::expr::Type::BV(1) {
+                    cmds.push(SmtCommand::Assert(ea));
+                }
+                cmds.push(SmtCommand::CheckSat);
+                cmds.push(SmtCommand::Pop(1));
+                cmds.push(SmtCommand::Push(1));
+                decls(&mut ctx, &yb, &nm_b, &mut cmds);
+                let out_b = {
+                    // the same output name, possibly with another sort
+                    let n = ctx.string("out!a".into());
+                    let t = eb.get_type(&ctx);
+                    ctx.symbol(n, t)
+                };
+                cmds.push(SmtCommand::DefineConst(out_b, eb));
+                if eb.get_type(&ctx) == patronus::expr::Type::BV(1) {
+                    cmds.push(SmtCommand::CheckSatAssuming(vec![eb]));
+                }
+                cmds.push(SmtCommand::Assert({
+                    let o = out_b;
+                    ctx.equal(o, eb)
+                }));
+                cmds.push(SmtCommand::Pop(1));
+                let text: String = cmds.iter().map(|c| real_cmd(&ctx, c)).collect();
+                r.count("obligations", 1);
+                r.count("script_streams", 1);
+                let show = format!("A = {} ; B = {} (first symbol of each is named `shared!`)", sa.show(), sb.show());
+                let replay = json!({"part": "stream", "pair": [ia, ib], "text": text});
+                let read = crate::panics::guarded(|| {
+                    let mut inp = std::io::Cursor::new(text.as_bytes());
+                    let mut st: FxHashMap<String, ExprRef> = FxHashMap::default();
+                    let mut out = vec![];
+                    while let Ok(Some(c)) = read_command(&mut inp, &mut ctx, &mut st) {
+                        out.push(c);
+                    }
+                    out
+                });
+                let got = match read {
+                    Ok(g) => g,
+                    Err((loc, msg)) => {
+                        r.violation(Role::new(SITE_STREAM, "script", &format!("panic@{loc}")), format!("script stream for {show} is not read back: {msg}"), replay);
+                        continue;
+                    }
+                };
+                if got.len() != cmds.len() {
+                    r.violation(Role::new(SITE_STREAM, "script", "command-count"), format!("script stream for {show}: {} commands written, {} read", cmds.len(), got.len()), replay);
+                    continue;
+                }
+                let mut ok = true;
+                for (ci, (w, g)) in cmds.iter().zip(got.iter()).enumerate() {
+                    let mut exprs: Vec<(ExprRef, ExprRef)> = vec![];
+                    let mut bad: Option<String> = None;
+                    match (w, g) {
+                        (SmtCommand::DeclareConst(a), SmtCommand::DeclareConst(b)) => {
+                            if a != b {
+                                bad = Some(format!("declared symbol {:?} read as {:?}", ctx[*a], ctx[*b]));
+                            }
+                        }
+                        (SmtCommand::DefineConst(x, a), SmtCommand::DefineConst(y, b)) => {
+                            if x != y {
+                                bad = Some(format!("defined symbol {:?} read as {:?}", ctx[*x], ctx[*y]));
+                            }
+                            exprs.push((*a, *b));
+                        }
+                        (SmtCommand::Assert(a), SmtCommand::Assert(b)) => exprs.push((*a, *b)),
+                        (SmtCommand::CheckSatAssuming(a), SmtCommand::CheckSatAssuming(b)) if a.len() == b.len() => exprs.extend(a.iter().copied().zip(b.iter().copied())),
+                        (SmtCommand::Push(a), SmtCommand::Push(b)) | (SmtCommand::Pop(a), SmtCommand::Pop(b)) if a == b => {}
+                        (SmtCommand::CheckSat, SmtCommand::CheckSat) => {}
+                        (SmtCommand::SetLogic(a), SmtCommand::SetLogic(b)) if a == b => {}
+                        _ => bad = Some(format!("command #{ci} `{}` read as {g:?}", real_cmd(&ctx, w).trim())),
+                    }
+                    for (a, b) in exprs {
+                        if bad.is_some() || a == b {
+                            continue;
+                        }
+                        if a.get_type(&ctx) != b.get_type(&ctx) {
+                            bad = Some(format!("command #{ci} `{}`: term written with type {:?}, read with type {:?}", real_cmd(&ctx, w).trim(), a.get_type(&ctx), b.get_type(&ctx)));
+                            continue;
+                        }
+                        match hard.check_equiv(&ctx, a, b).0 {
+                            Verdict::Equal => {}
+                            Verdict::Differ { va, vb, .. } => bad = Some(format!("command #{ci} `{}` read as a term with a different value ({} vs {})", real_cmd(&ctx, w).trim(), va.show(), vb.show())),
+                            Verdict::IllTyped(m) => bad = Some(format!("command #{ci} read as an ill-typed term: {m}")),
+                            Verdict::Inconclusive(why) => {
+                                r.inconc(json!({"stream": show, "why": why}));
+                                ok = false;
+                            }
+                            Verdict::Unconfirmed { detail, .. } => {
+                                r.undecided.push(format!("ENCODING-ERROR in stream {show}: {detail}"));
+                                ok = false;
+                            }
+                        }
+                    }
+                    if let Some(b) = bad {
+                        let kind = if ci >= cmds.iter().rposition(|c| matches!(c, SmtCommand::Push(_))).unwrap_or(0) { "after-redeclaration" } else { "first-scope" };
+                        r.violation(Role::new(SITE_STREAM, "script", kind), format!("script stream for {show}: {b}"), replay.clone());
+                        ok = false;
+                        break;
+                    }
+                }
+                if ok {
+                    r.count("discharged", 1);
+                }
+            }
+            r.count("solver_time_ms", hard.stats().0);
+            r.count("solver_queries", hard.stats().1);
+            r
+        })
+        .collect();
+    for p in parts {
+        rep.merge(p);
+    }
+}
+
+// ---------------------------------------------------------------------------------------------
+// reader semantics, independent of the expression builders: for every operator spelling found in the
+// *source* of the writer (smt/serialize.rs, re-read on every run), a term in that spelling over declared
+// symbols is read by the real reader; the solver then decides whether the expression that was read
+// (RefSmt, by destructuring) equals the text itself as the solver reads it.
+
+fn reader_semantics_part(rep: &mut Report) {
+    let src = match std::fs::read_to_string(crate::report::repo_root().join("patronus/src/smt/serialize.rs")) {
+        Ok(s) => s,
+        Err(e) => {
+            rep.undecided.push(format!("CANNOT-ENCODE: smt/serialize.rs not readable: {e}"));
+            return;
+        }
+    };
+    let emitted = |name: &str| src.contains(&format!("\"({name} ")) || src.contains(&format!("(_ {name} ")) || (name == "const" && src.contains("(as const "));
+    let mut z3 = Proc::new(Which::Z3New, 10_000);
+    let mut second = Proc::new(Which::Cvc5, 10_000);
+    for w in [2u32, 8, 65] {
+        let mut ctx = Context::default();
+        let a = ctx.bv_symbol("a", w);
+        let b = ctx.bv_symbol("b", w);
+        let c = ctx.bv_symbol("c", 3);
+        let i = ctx.bv_symbol("i", 2);
+        let p = ctx.bv_symbol("p", 1);
+        let q = ctx.bv_symbol("q", 1);
+        let m = ctx.array_symbol("m", 2, w);
+        let m2 = ctx.array_symbol("m2", 2, w);
+        let all = vec![a, b, c, i, p, q, m, m2];
+        let mut st: FxHashMap<String, ExprRef> = FxHashMap::default();
+        for s in all.iter() {
+            st.insert(ctx.get_symbol_name(*s).unwrap().to_string(), *s);
+        }
+        let arr = format!("(Array (_ BitVec 2) (_ BitVec {w}))");
+        let mut cases: Vec<(&str, String, Ty)> = vec![];
+        for n in ["bvnot", "bvneg"] {
+            cases.push((n, format!("({n} a)"), Ty::BV(w)));
+        }
+        for n in ["bvand", "bvor", "bvxor", "bvshl", "bvashr", "bvlshr", "bvadd", "bvmul", "bvsdiv", "bvudiv", "bvsmod", "bvsrem", "bvurem", "bvsub"] {
+            cases.push((n, format!("({n} a b)"), Ty::BV(w)));
+        }
+        for n in ["bvugt", "bvsgt", "bvuge", "bvsge"] {
+            cases.push((n, format!("({n} a b)"), Ty::BV(1)));
+            cases.push((n, format!("({n} b a)"), Ty::BV(1)));
+        }
+        cases.push(("=", "(= a b)".into(), Ty::BV(1)));
+        cases.push(("=", "(= p q)".into(), Ty::BV(1)));
+        cases.push(("=", "(= m m2)".into(), Ty::BV(1)));
+        cases.push(("=>", "(=> p q)".into(), Ty::BV(1)));
+        cases.push(("=>", "(=> q p)".into(), Ty::BV(1)));
+        cases.push(("not", "(not p)".into(), Ty::BV(1)));
+        for n in ["and", "or", "xor"] {
+            cases.push((n, format!("({n} p q)"), Ty::BV(1)));
+        }
+        cases.push(("concat", "(concat a c)".into(), Ty::BV(w + 3)));
+        cases.push(("concat", "(concat c a)".into(), Ty::BV(w + 3)));
+        cases.push(("zero_extend", "((_ zero_extend 3) a)".into(), Ty::BV(w + 3)));
+        cases.push(("sign_extend", "((_ sign_extend 3) a)".into(), Ty::BV(w + 3)));
+        cases.push(("extract", format!("((_ extract {} 0) a)", w - 1), Ty::BV(w)));
+        if w > 2 {
+            cases.push(("extract", format!("((_ extract {} 1) a)", w - 2), Ty::BV(w - 2)));
+        }
+        cases.push(("ite", "(ite p a b)".into(), Ty::BV(w)));
+        cases.push(("ite", "(ite p q (not p))".into(), Ty::BV(1)));
+        cases.push(("ite", "(ite p m m2)".into(), Ty::Arr(2, w)));
+        cases.push(("select", "(select m i)".into(), Ty::BV(w)));
+        cases.push(("store", "(store m i a)".into(), Ty::Arr(2, w)));
+        cases.push(("store", "(store (store m i a) (bvnot i) b)".into(), Ty::Arr(2, w)));
+        cases.push(("const", format!("((as const {arr}) a)"), Ty::Arr(2, w)));
+        for (name, text, want_ty) in cases {
+            if !emitted(name) {
+                rep.count("operator_spellings_not_found_in_writer_source", 1);
+                continue;
+            }
+            rep.count("obligations", 1);
+            rep.count("reader_semantics_terms", 1);
+            let replay = json!({"part": "reader-semantics", "text": text, "width": w});
+            let e3 = match crate::panics::guarded(|| parse_expr(&mut ctx, &st, text.as_bytes())) {
+                Ok(Ok(e)) => e,
+                Ok(Err(err)) => {
+                    rep.violation(Role::new(SITE_READER, name, "rejected"), format!("`{text}` (a spelling the writer emits) is rejected by the reader: {err:?}"), replay);
+                    continue;
+                }
+                Err((loc, msg)) => {
+                    rep.violation(Role::new(SITE_READER, name, &format!("panic@{loc}")), format!("reader panics on `{text}`: {msg}"), replay);
+                    continue;
+                }
+            };
+            let (pre, rt, ty, cvc5_ok) = match c05::prelude_all(&ctx, e3, &all) {
+                Ok(x) => x,
+                Err(m) => {
+                    rep.violation(Role::new(SITE_READER, name, "ill-typed"), format!("`{text}` is read as an ill-typed expression: {m}"), replay);
+                    continue;
+                }
+            };
+            if ty != want_ty {
+                rep.violation(Role::new(SITE_READER, name, "type"), format!("`{text}` denotes a value of type {want_ty:?} but is read as {} of type {ty:?}", crate::c01::show(&ctx, e3)), replay);
+                continue;
+            }
+            let q = format!("{pre}(assert (distinct {rt} {}))\n", c05::to_ref_pub(&text, want_ty));
+            let mut ans = z3.check_once(&q);
+            if !matches!(ans, Answer::Unsat | Answer::Sat) && cvc5_ok {
+                ans = second.check_once(&q);
+            }
+            match ans {
+                Answer::Unsat => rep.count("discharged", 1),
+                Answer::Sat => {
+                    rep.count("disagreements_checked", 1);
+                    rep.violation(Role::new(SITE_READER, name, "value"), format!("`{text}` is read as {}, which the solver shows to differ from the text's own meaning (width {w})", crate::c01::show(&ctx, e3)), json!({"part": "reader-semantics", "text": text, "width": w, "smt2": q}));
+                }
+                other => rep.inconc(json!({"text": text, "why": format!("{other:?}"), "smt2": q})),
+            }
+        }
+    }
+    rep.count("solver_time_ms", z3.solver_time.as_millis() as u64 + second.solver_time.as_millis() as u64);
+    rep.count("solver_queries", z3.queries + second.queries);
+}
+
+// ---------------------------------------------------------------------------------------------
 // model values
 
 fn real_sort(t: Ty) -> String {
@@ -721,10 +1026,25 @@ pub fn run(tier: Tier, seed: u64, replay: Option<serde_json::Value>) -> i32 {
     if only_part.as_deref().map(|p| p.contains("value")).unwrap_or(true) {
         values_part(&mut rep, tier);
     }
+    if only_part.is_none() || only_part.as_deref() == Some("reader-semantics") {
+        reader_semantics_part(&mut rep);
+    }
+    if only_part.is_none() || only_part.as_deref() == Some("stream") {
+        let all;
+        let (inst, only): (&[Sh], Option<(usize, usize)>) = match &replay {
+            Some(r) => {
+                all = c05::generate(tier, seed);
+                let p = &r["replay"]["pair"];
+                (&all, Some((p[0].as_u64().unwrap_or(0) as usize, p[1].as_u64().unwrap_or(1) as usize)))
+            }
+            None => (&instances, None),
+        };
+        stream_part(&mut rep, inst, tier, seed, only);
+    }
     rep.extra.insert("bounds".into(), json!({"expressions": "the shapes of C05 (widths 1, 2, 8, 65; depth <= 2 exhaustive, seeded deeper)", "value_sorts": ["Bool", "bv2", "bv8", "bv64", "bv65", "bv128", "Array bv2 bv3", "Array Bool bv4", "Array bv2 Bool", "Array Bool Bool", "Array bv3 bv8"],
         "value_sources": ["z3 4.8.12 with patronus' arguments", "cvc5 1.0", "cvc5 --dag-thresh=1 (let-bound sub-terms)", "z3 5.1"], "malformed": "token-boundary prefixes and single-atom deletions of every solver response"}));
-    rep.extra.insert("functions_encoded".into(), json!(["smt::parse_expr", "smt::parse_command", "smt::parse_get_value_response", "SmtLibSolverCtx::get_value", "smt::serialize_cmd"]));
-    rep.extra.insert("outside_claim".into(), json!(["the lexer on arbitrary bytes", "read_command on streams", "get-unsat-assumptions responses (exercised through pdr in C10)"]));
+    rep.extra.insert("functions_encoded".into(), json!(["smt::parse_expr", "smt::parse_command", "smt::read_command", "smt::parse_get_value_response", "SmtLibSolverCtx::get_value", "smt::serialize_cmd"]));
+    rep.extra.insert("outside_claim".into(), json!(["the lexer on arbitrary bytes", "get-unsat-assumptions responses (exercised through pdr in C10)"]));
     rep.assumptions = vec!["RefSmt is the SMT-LIB reading of Expr".into(), "solvers print model values in standard syntax".into()];
     rep.finish()
 }
